@@ -11,16 +11,17 @@ from sim import run_scenario
 from .base import Result, V
 from . import simcommon as SC
 
-MODULES = ["TickitModel.Props.C01"]
+MODULES = ["TickitModel.Props.C01", "TickitModel.Props.C01Live"]
 THEOREMS = ["gate_inv", "pending_iff_flag", "within_extent", "update_after_upstreams", "dispatch_at_most_once",
-            "resolved_iff_answered", "init_ok", "step_ok", "progress", "step_measure", "finished_iff"]
+            "resolved_iff_answered", "init_ok", "step_ok", "progress", "step_measure", "finished_iff",
+            "tick_can_complete", "every_step_makes_progress"]
 ANCHORS = ["src/tickit/core/management/ticker.py", "src/tickit/core/management/event_router.py",
            "src/tickit/core/management/schedulers/base.py", "src/tickit/core/management/schedulers/nested.py"]
 TECHNIQUE = "Lean 4 theorems (invariant over every reachable state of the ticker's transition system: gate, dispatch-once, progress on acyclic wirings - all wirings, root sets and answer orders) + trace validation of every real Ticker (directly driven with all answer orders, and inside whole simulations under delaying buses) against the model"
 LEVEL_TEXT = ("Full-strength theorems over the ticker model, for every wiring, time, root set, reaction function and every order in which pending "
               "dispatches are answered: a component is dispatched only when no first-order upstream of it is still unresolved (hence after every "
               "participating upstream answered), at most once per tick, only inside the extent, with the tick's time; on acyclic wirings some "
-              "dispatch is always pending until the tick finishes (no stall), and it finishes after exactly |extent| answers. The model is tied "
+              "dispatch is always pending until the tick finishes (no stall), every pending dispatch is an enabled step resolving exactly one component, and from every reachable state the tick can be completed (tick_can_complete) - it finishes after exactly |extent| answers. The model is tied "
               "to ticker.py by an acceptor: every call/propagate of every real Ticker (driven directly through its public API with all answer "
               "orders on small DAGs, and inside flat and nested simulations under the synchronous bus and a delaying broker-like bus) must "
               "produce exactly the dispatch set the model produces. Nested depth is covered by applying the per-ticker theorem at each level plus "
